@@ -287,6 +287,8 @@ namespace c18
   // implemented in gxfer.cpp (Global::Transfer around given matrices)
   void global_transfer_sections(std::ostream& o, const MatrixType& prol, const MatrixType& rest, const MatrixType& trunc,
     const VectorType& x, const VectorType& y);
+  void transfer_twins_sections(std::ostream& o, const MatrixType& prol, const MatrixType& rest, const MatrixType& trunc,
+    const VectorType& x, const VectorType& y);
   void global_transfer_forbidden(std::ostream& o, int which, const MatrixType& prol, const MatrixType& rest,
     const MatrixType& trunc, const VectorType& x, const VectorType& y);
 
@@ -418,6 +420,9 @@ namespace c18
       // 7. Global::Transfer (un-muxed, non-child muxer, single-process muxed) around the assembled matrices
       o << " G";
       global_transfer_sections(o, prol_d, rest, trunc_d, xc, yf);
+      // 8. converted (index type) and cloned twins of the local and the global transfer objects
+      o << " TW";
+      transfer_twins_sections(o, prol_d, rest, trunc_d, xc, yf);
       return;
     }
     if(op == "feo")
